@@ -120,6 +120,7 @@ template <class D> struct Hist {
   unsigned steps_done = 0, distinct_vals_used = 0;
   bool any_nontrivial_checked = false;
   unsigned leq_yes = 0, leq_no = 0, copies = 0, mutations_after_copy = 0, observed_copy = 0;
+  unsigned hot_left = 0, hot_dst = 0, hot_src = 0, moves_compared = 0;
   int64_t ccap;
 
   Hist(Tape &tape, CaseCtx &c, Universe &uni) : t(tape), ctx(c), u(uni) {
@@ -350,6 +351,17 @@ template <class D> struct Hist {
   void step() {
     unsigned kind = t.pick(20);
     unsigned i = t.pick(NVALS), j = t.pick(NVALS), k = t.pick(NVALS);
+    // C16 runs: a fifth of the steps outside a hot window are copies (tail choice)
+    if (ctx.selected_prop == "C16" && hot_left == 0 && t.tail_u8() % 5 == 0)
+      kind = 16;
+    // (tail choice) locality after a copy: the next steps usually operate on the fresh copy (or on its
+    // source), so that "copy; update; update" sequences on structure-sharing values are common
+    if (hot_left > 0) {
+      hot_left--;
+      unsigned hb = t.tail_u8();
+      if ((hb & 3) != 0)
+        i = (hb & 4) ? hot_src : hot_dst;
+    }
     std::set<unsigned> touched;
     std::string what;
     switch (kind) {
@@ -493,6 +505,9 @@ template <class D> struct Hist {
       refresh_snap(k);
       refresh_snap(i);
       copies++;
+      hot_left = 3;
+      hot_dst = k;
+      hot_src = i;
       check_members(k, what);
       check_generic(k, what);
       R().cls("op_copy");
@@ -605,7 +620,28 @@ template <class D> struct Hist {
   void assign_result(unsigned k, D &&r, std::vector<State> &w, unsigned i, unsigned j) {
     std::set<var_t> m = S[i].mentioned;
     m.insert(S[j].mentioned.begin(), S[j].mentioned.end());
-    A[k] = std::move(r);
+    // (tail choice, a quarter of the results) a value that was move-assigned describes what a copy
+    // taken before the move describes (C16: moves)
+    if ((t.tail_u8() & 3) == 1) {
+      D c(r);
+      A[k] = std::move(r);
+      (void)snapshot(A[k], vars, probes);
+      (void)snapshot(c, vars, probes);
+      std::string a = snapshot(A[k], vars, probes), b = snapshot(c, vars, probes);
+      {
+        // ... and so do the results of a later operation (explicit normalisation of a copy of each)
+        D a2(A[k]), c2(c);
+        a2.normalize();
+        c2.normalize();
+        a += " / normalized: " + snapshot(a2, vars, probes);
+        b += " / normalized: " + snapshot(c2, vars, probes);
+      }
+      moves_compared++;
+      VCHECK(ctx, "C16", a == b, "hist_move_assigned_value_differs_from_copy",
+             "the result of a binary operation was copied, then move-assigned into A" << k << ": the moved-to value observes " << a
+                                                                                      << " but the copy observes " << b);
+    } else
+      A[k] = std::move(r);
     dedup(w);
     S[k].W = w;
     S[k].mentioned = m;
@@ -1111,6 +1147,37 @@ template <class D> struct Hist {
     std::set<var_t> dummy;
     for (unsigned q = 0; q < 8; q++)
       probes.push_back(constraint(dummy));
+    // C16 runs (tail choices, three quarters of them): the history starts from values that bind
+    // every integer variable and share their representation -- A0 is built by assignments of
+    // constants, some of the other values are copies of it
+    if (ctx.selected_prop == "C16" && (t.tail_u8() & 3) != 0) {
+      std::vector<var_t> pv = u.ints;
+      pv.insert(pv.end(), u.wides.begin(), u.wides.end());
+      for (auto &x : pv) {
+        unsigned b = t.tail_u8();
+        if ((b & 7) == 7)
+          continue;
+        z_number c((int64_t)(b >> 3) - 8);
+        BOTH(0, X.assign(x, lin_t(c)));
+        for (auto &w : S[0].W)
+          w.num[x] = c;
+        S[0].mentioned.insert(x);
+      }
+      dedup(S[0].W);
+      for (unsigned k = 1; k < NVALS; k++)
+        if (t.tail_u8() & 1) {
+          A[k] = A[0];
+#ifdef VERIF_GENERIC
+          G[k] = G[0];
+#endif
+          S[k] = S[0];
+          copies++;
+        }
+      for (unsigned k = 0; k < NVALS; k++)
+        refresh_snap(k);
+      check_members(0, "prologue_assign");
+      R().cls("c16_shared_prologue");
+    }
     unsigned nsteps = 3 + t.pick(38);
     for (unsigned q = 0; q < nsteps && !(t.exhausted() && q >= 3); q++) {
       step();
@@ -1260,6 +1327,22 @@ template <class D> struct Hist {
                "chain step " << it << ": x || y = " << to_str(nx) << " does not contain witness " << w.str() << " of its arguments x=" << to_str(x)
                              << " y=" << to_str(arg) << " : " << r);
       }
+      if (ctx.selected_prop == "C16") {
+        // C16 (moves): a widening result move-assigned into an existing value describes what a copy
+        // of it describes, now and after a later operation (normalisation of a copy of each)
+        D c(nx), src(nx);
+        D dst = (it & 1) ? D(x) : top.make_top();
+        dst = std::move(src);
+        D a2(dst), c2(c);
+        a2.normalize();
+        c2.normalize();
+        std::string a = snapshot(dst, vars, probes) + " / normalized: " + snapshot(a2, vars, probes);
+        std::string b = snapshot(c, vars, probes) + " / normalized: " + snapshot(c2, vars, probes);
+        moves_compared++;
+        VCHECK(ctx, "C16", a == b, "chain_move_assigned_value_differs_from_copy",
+               "chain step " << it << ": the widening result " << to_str(nx) << " was copied, then move-assigned into an existing value: the moved-to value observes "
+                             << a << " but the copy observes " << b);
+      }
       if (with_queries && (it % 3) == 1) {
         for (auto &v : vars)
           (void)nx[v];
@@ -1290,6 +1373,8 @@ template <class D> struct Hist {
            "widening chain still strictly increasing after " << increases << " increases (structural bound " << K << ", n=" << n << ", thresholds=" << nthr << ")");
     if (increases >= 2)
       ctx.nontrivial = true;
+    if (ctx.selected_prop == "C16")
+      ctx.nontrivial = increases >= 1 && moves_compared > 0;
     R().cls(increases >= 3 ? "chain_ge3_increases" : (increases == 2 ? "chain_2_increases" : "chain_lt2_increases"));
     if (increases * 2 > K)
       R().diag("chain_increases_within_factor_2_of_bound");
@@ -1319,7 +1404,7 @@ void run_case(const uint8_t *data, size_t size, CaseCtx &ctx) {
   }
   for (unsigned i = 0; i < 3; i++)
     u.fresh.push_back(var_t(vf["r" + std::to_string(i)], crab::INT_TYPE, 32));
-  bool chain = ctx.selected_prop == "C05" ? (t.pick(4) != 0) : (t.pick(8) == 7);
+  bool chain = ctx.selected_prop == "C05" ? (t.pick(4) != 0) : (ctx.selected_prop == "C16" ? (t.pick(8) >= 5) : (t.pick(8) == 7));
   ctx.log << "domain=" << VERIF_VARIANT << (chain ? " mode=chain" : " mode=history") << " ints=" << ni << " bools=" << u.bools.size() << "\n";
   Hist<dom_t> h(t, ctx, u);
   if (chain) {
@@ -1330,6 +1415,7 @@ void run_case(const uint8_t *data, size_t size, CaseCtx &ctx) {
   }
   h.run_history();
   R().cls("mode_history");
+  if (h.moves_compared) R().cls("history_with_move_compared_with_copy");
   ctx.mixs(ctx.log.str());
   unsigned distinct = 0;
   for (unsigned i = 0; i < NVALS; i++)
